@@ -133,9 +133,11 @@ def run(ctx):
         rc, so, se = vf.sh([os.path.join(vf.CACHE, "h_c07"), "-hist", path], cwd=vf.GO, env=vf.go_env(), timeout=120)
         return [l.split("\t") for l in so.split("\n") if l.startswith("R\t")]
 
-    def last_fails(cfg, wires):
+    def last_fails(cfg, wires, kind):
         rr = rerun(cfg, wires)
-        return bool(rr) and len(rr) == len(wires) and (rr[-1][10] != "ok" or rr[-1][11] != "-"), rr
+        if not rr or len(rr) != len(wires):
+            return False, rr
+        return (rr[-1][10] != "ok") if kind == "response-depends-on-history" else (rr[-1][11] != "-"), rr
 
     def finalize(v):
         rows = v.pop("rows")
@@ -143,12 +145,12 @@ def run(ctx):
         wires = wire_of(rows)
         if mode == "seq" and v["kind"] in ("response-depends-on-history", "shared-state-corrupted"):
             # shrink: drop earlier requests while the last one still fails (each attempt in a new process)
-            ok, rr = last_fails(cfg, wires)
+            ok, rr = last_fails(cfg, wires, v["kind"])
             if ok:
                 i = len(wires) - 2
                 while i >= 0:
                     cand = wires[:i] + wires[i + 1:]
-                    ok2, rr2 = last_fails(cfg, cand)
+                    ok2, rr2 = last_fails(cfg, cand, v["kind"])
                     if ok2:
                         wires, rr = cand, rr2
                     i -= 1
@@ -170,7 +172,8 @@ def run(ctx):
     for v in failing[:3]:
         ctx.violation(finalize(v))
     if not failing:
-        for v in suspicious[:3]:
+        corr = [v for v in suspicious if v["kind"] == "correspondence"][:2]
+        for v in corr or suspicious[:1]:
             ctx.violation(finalize(v), no_failing_input=True)
         if ok_extract and not proved:
             ctx.violation({"kind": "proof", "failing": ctx.proof_failure, "model_witness": witness,
